@@ -3,6 +3,6 @@ NEXT Next
 CONSTANTS
   PairMode = "all"
   NearDist = 0
-  PairKinds = "all"
+  PairKinds = "some"
 INVARIANTS Emit IsPermutation OnlyImportCommentsMove ImportGroupsSorted
 CHECK_DEADLOCK FALSE
